@@ -174,7 +174,7 @@ class Candidate:
 
 
 V_RE = re.compile(r'^V (?:fault=(\d+):(\d+) )?run=(\d+) seed=(\d+) family=(\S+) profile=(\S+) props=(\S+) kind=(\S+) op=(-?\d+) opkind=(\S+) what=(.*)$')
-CRASH_RE = re.compile(r'CRASH class=(\S+) signal=(\d+) seed=(\d+) run=(-?\d+) op=(-?\d+) opname=(\S*) props=(\S+) prior=(\S+)')
+CRASH_RE = re.compile(r'CRASH class=(\S+) signal=(\d+) seed=(\d+) run=(-?\d+) op=(-?\d+) opname=(\S*) props=(\S+) prior=(\S+)(?: fault=(\d+):(\d+))?')
 
 
 def merge_stats(total, st):
@@ -258,7 +258,8 @@ class Search:
             if crash:
                 cls = crash.group(1)
                 run = int(crash.group(4))
-                c = Candidate(engine=engine, fault=None, run=run, seed=int(crash.group(3)), family=family, profile=profile,
+                cf_ = ('%s:%s' % (crash.group(9), crash.group(10))) if (profile == 'scenario' and crash.group(9) and crash.group(9) != '0') else None
+                c = Candidate(engine=engine, fault=cf_, run=run, seed=int(crash.group(3)), family=family, profile=profile,
                               props=crash.group(7).split(','), kind='HANG' if cls == 'HANG' else 'CRASH', op=int(crash.group(5)),
                               opkind=crash.group(6) or '-', what='%s (%s) in %s; %s' % (cls, 'signal ' + crash.group(2) if cls == 'SIGNAL' else cls.lower(),
                                                                                         crash.group(6), ' | '.join(tail[-3:])[:300]), variant=self.variant)
@@ -404,19 +405,19 @@ HIST_RULE = ('seeded operation histories (profile "%s") over a pool of 2-5 vecto
              '{basic, mixed, limits} allocator/size_type/N mixes + a pointer-overlap family); an evaluation is one run (one seed = one plan '
              'of ~25 operations plus its environment stream); distinct_nontrivial counts %s')
 CHECKS = {
-    'C01': dict(level='exploration', jobs=vjobs('hist', VEC_ALL), quick=('asan', 40), thorough=[('plain', 420), ('asan', 300)], cellprop='1',
+    'C01': dict(level='exploration', jobs=vjobs('hist', VEC_ALL), quick=('asan', 40), thorough=[('plain', 420), ('asan', 300), ('plain20', 120)], cellprop='1',
                 rule=HIST_RULE % ('hist', '(type, operation kind, state class of target, state class of partner, outcome) cells reached')),
     'C02': dict(level='exploration', jobs=vjobs('hist', VEC_HOOKS) + vjobs('inline', VEC_HOOKS[:6]) + sjobs('sethist', SET_HOOKS) + sjobs('setsmall', SET_HOOKS[2:]), quick=('asan', 40),
                 thorough=[('plain', 420), ('asan', 300)], cellprop='1',
                 rule=HIST_RULE % ('hist/inline, identity-recording element types only',
                                   '(type, operation kind, state classes, outcome) cells reached with the element ledger balanced after the step')),
-    'C03': dict(level='exploration', jobs=sjobs('sethist', SET_FLAT), quick=('asan', 40), thorough=[('plain', 420), ('asan', 300)], cellprop='3',
+    'C03': dict(level='exploration', jobs=sjobs('sethist', SET_FLAT), quick=('asan', 40), thorough=[('plain', 420), ('asan', 300), ('plain20', 120)], cellprop='3',
                 rule='seeded operation histories (profile "sethist") over a pool of 2-4 FlatSets of one family (3 element categories; underlying '
                      'amc::vector / SmallVector<4> / FixedCapacityVector<12> / std::vector; two comparator types, transparent variant; comparator '
                      'mode less / greater / coarse drawn per run, sets of the second comparator type get another mode); an evaluation is one run; '
                      'distinct_nontrivial counts (type, operation, size bucket, partner) cells reached with the std::set model agreeing'),
     'C04': dict(level='exploration', jobs=sjobs('setsmall', SET_SMALL) + sjobs('sethist', SET_SMALL), quick=('asan', 40),
-                thorough=[('plain', 420), ('asan', 300)], cellprop='4',
+                thorough=[('plain', 420), ('asan', 300), ('plain20', 120)], cellprop='4',
                 rule='seeded operation histories (profiles "setsmall": key domain 3-9, grow_past_N / drain / refill macros, merges and comparisons '
                      'between sets of different N, comparator type and backing; "sethist") over a pool of SmallSets (N in {1,2,3,5}, std::set and '
                      'FlatSet backing); distinct_nontrivial counts (type, operation, |content|, state inline/large, crosses-boundary?, partner state) cells'),
